@@ -476,6 +476,11 @@ class Routine(TimeThread, Stream):
                 else:
                     return self._terminal_value
 
+            # A running routine can't be resumed (by itself or by a routine
+            # it called): the thread stack must not be touched.
+            if self.state == self.State.Running:
+                raise RoutineException('cannot be resumed within itself')
+
             self.parent = _libsc3.main.current_tt
             _libsc3.main.current_tt = self
             self._m_seconds = self.parent._seconds
